@@ -48,7 +48,7 @@ def replay(case) -> dict:
     p1 = np.array(cfg["p"], dtype=float) / 2.0 * scale
     p2 = np.array(case["p_second"], dtype=float) / 2.0 * scale
     p1_0, p2_0 = p1.copy(), p2.copy()
-    desc = dict(shape=list(shape), even=[n % 2 == 0 for n in shape], second=cfg["second"], order=cfg["order"], scale=scale,
+    desc = dict(shape=list(shape), thin=list(tshape) != [10, 11, 12], even=[n % 2 == 0 for n in shape], second=cfg["second"], order=cfg["order"], scale=scale,
                 rotated=cfg["R"] != [[1, 0, 0], [0, 1, 0], [0, 0, 1]], p=cfg["p"])
     fails = []
     want = _expected(tshape, tmpl, [case["paste1"]] + ([case["paste2"]] if cfg["second"] != "none" else []))
@@ -164,7 +164,7 @@ def run(rep: engine.Report, tier: str, seed: int):
     if not cases:
         raise engine.MachineryError("MC_C14 emitted nothing")
     budget = 1800 if tier == "quick" else len(cases)
-    sel = engine.stratified_sample(cases, lambda c: (tuple(c["cfg"]["shape"]), c["cfg"]["second"], c["cfg"]["order"], c["cfg"]["s2"], json.dumps(c["cfg"]["R"]), len(c["paste1"])), budget, seed)
+    sel = engine.stratified_sample(cases, lambda c: (tuple(c["cfg"]["shape"]), tuple(c["tshape"]), c["cfg"]["second"], c["cfg"]["order"], c["cfg"]["s2"], json.dumps(c["cfg"]["R"]), len(c["paste1"])), budget, seed)
     rep.exhaustive = len(sel) == len(cases)
     results = engine.parallel_replay("harness.props.c14", "replay", sel)
     engine.collect(rep, sel, results, key=lambda c: c["cfg"])
@@ -173,7 +173,8 @@ def run(rep: engine.Report, tier: str, seed: int):
     rep.rule = (
         "TLC enumerates template shapes (3,3,3),(4,4,4),(3,4,5),(6,5,4) x 18 grid-coincident position classes (interior, on a face, "
         "straddling, fully outside, per axis) x Rot24 orientations for the cubic odd template x {one molecule, two in one component, "
-        "two components} x orders 0/1/3 x scales 1/2,1,2 and emits the exact voxel contributions; "
+        "two components} x orders 0/1/3 x scales 1/2,1,2, plus six volumes THINNER than the template along one axis (the template overhangs both "
+        "faces: slabs of 1-3 voxels) and emits the exact voxel contributions; "
         f"{len(cases)} cases, {len(sel)} replayed on TomogramSimulator.simulate / simulate_2d and SubtomogramLoader.load"
     )
     rep.assumptions += ["only grid-coincident poses have an exact expectation; other poses are covered through C01/C02"]
